@@ -28,6 +28,7 @@ type Val struct {
 	Wire   int    `json:"wire,omitempty"` // alternative universal string tag on the wire (default-typed strings)
 	Nul    int    `json:"nul,omitempty"`  // BMPString: trailing U+0000 code units appended on the wire
 	T      int64  `json:"t,omitempty"`    // unix seconds
+	TZ     int    `json:"tz,omitempty"`   // zone offset in minutes written on the wire instead of "Z" (accepted by both decoders, re-encoded verbatim by both encoders)
 	RC     int    `json:"rc,omitempty"`   // RawValue class 0..3
 	RT     int    `json:"rt,omitempty"`   // RawValue tag number
 	RCmp   bool   `json:"rcmp,omitempty"`
@@ -410,6 +411,20 @@ func (c *encCtx) body(td *TD, v *Val, m mctx) (int, bool, []byte, reflect.Value)
 		return c.strBody(td, v, m, gv, implicit)
 	case KTime:
 		t := time.Unix(v.T, 0).UTC()
+		zone := ""
+		if v.TZ != 0 && v.Quirk != QFrac {
+			// wall clock of that zone plus the numeric offset; the UTCTime / GeneralizedTime choice follows the zone-local year
+			lt := t.In(time.FixedZone("", v.TZ*60))
+			utcYear := lt.Year() >= 1950 && lt.Year() < 2050
+			if lt.Year() >= 0 && lt.Year() <= 9999 && (utcYear == inUTCRange(v.T)) {
+				t = lt
+				zone = lt.Format("-0700")
+				c.cl("time:numeric-offset")
+				if v.TZ < 0 && v.TZ > -60 {
+					c.cl("time:negative-sub-hour-offset")
+				}
+			}
+		}
 		gv.Set(reflect.ValueOf(t))
 		c.cl("kind:time")
 		gen := td.Time == "generalized" || !inUTCRange(v.T)
@@ -430,9 +445,15 @@ func (c *encCtx) body(td *TD, v *Val, m mctx) (int, bool, []byte, reflect.Value)
 				}
 			}
 			c.cl("time:generalized")
+			if zone != "" {
+				return 24, false, []byte(t.Format("20060102150405") + zone), gv
+			}
 			return 24, false, []byte(t.Format("20060102150405Z")), gv
 		}
 		c.cl("time:utc")
+		if zone != "" {
+			return 23, false, []byte(t.Format("060102150405") + zone), gv
+		}
 		return 23, false, []byte(t.Format("060102150405Z")), gv
 	case KRaw:
 		return 0, false, nil, gv
